@@ -10,6 +10,15 @@ import os
 import re
 import shutil
 import subprocess
+
+
+def _die_with_parent():
+    """The JVM must not outlive a check that is interrupted (PR_SET_PDEATHSIG = 1, SIGKILL = 9)."""
+    try:
+        import ctypes
+        ctypes.CDLL("libc.so.6").prctl(1, 9)
+    except Exception:
+        pass
 import tempfile
 import time
 
@@ -154,7 +163,7 @@ def run_tlc(module, cfg_text, spec_dirs, workers=None, simulate=None, depth=None
         e = dict(os.environ)
         e.update(env or {})
         try:
-            p = subprocess.run(cmd, cwd=scratch, env=e, capture_output=True, text=True, timeout=timeout)
+            p = subprocess.run(cmd, cwd=scratch, env=e, capture_output=True, text=True, timeout=timeout, preexec_fn=_die_with_parent)
         except subprocess.TimeoutExpired as ex:
             raise TLCError(f"TLC timed out after {timeout}s on {module}") from ex
         res = TLCResult()
